@@ -29,10 +29,10 @@ Definition clamp3 (r g b : pynum) : triple := (clamp255 (c_int r), clamp255 (c_i
 Definition dr_set (p : pins3) (r g b : pynum) : drgb * list dev := dr_write p (clamp3 r g b).
 
 (* RGBLedFade: one interpolated component at step i of n - nearest integer, a half to the even one
-     long num = (long)start * n + (long)(target - start) * i;
-     long quot = num / n;  long rem = num % n;       (C division truncates toward zero; num >= 0 on the device)
-     if ((2 * rem > n) || ((2 * rem == n) && ((quot % 2) != 0))) ++quot;
-     int v = (int)quot; *)
+     long num = (long)start * n + (long)(target - start) * i;     (num >= 0 on the device)
+     int v = (int)(num / n);  num = 2 * (num % n);               (C division truncates toward zero; num is reused
+                                                                   for twice the remainder: below q = v, 2 * r = num)
+     if ((num > n) || ((num == n) && ((v % 2) != 0))) ++v; *)
 Definition c_interp (n s t i : Z) : Z :=
   let num := s * n + (t - s) * i in
   let q := Z.quot num n in
